@@ -125,6 +125,16 @@ def main():
             print(f"[{sid}] NOT CONFIRMED; not kept")
             print(out0[-600:], outs[-600:], out1[-600:])
             sys.exit(3)
+    if "--confirm-only" in args:
+        os.makedirs(dst, exist_ok=True)
+        shutil.copy(patch, f"{dst}/patch.diff")
+        shutil.copy(f"{src}/demo.rs", f"{dst}/demo.rs")
+        if notes:
+            open(f"{dst}/NOTES.md", "w").write(notes)
+        meta["needs_to_manifest"] = "see NOTES.md section (2)"
+        meta["ran"] = [f"cargo test --offline{feat} --test {demo_name} (scratch worktree, with and without the patch)", "cargo test --workspace --no-fail-fast --offline --lib (scratch worktree, with the patch)", "cargo build --offline with default / --no-default-features / --features decode (with the patch)"]
+        json.dump(meta, open(f"{dst}/meta.json", "w"), indent=1)
+        sys.exit(0)
     # detection against /repo
     rc, out = sh("git diff --quiet", cwd="/repo")
     if rc != 0:
